@@ -138,6 +138,7 @@ def run_one(cfg):
     viol = []            # (key, message, where)
     stats = dict(gsn=0, gsn_nontrivial=0, gsn_ties=0, local_fit=0, append=0, fit=0, lcb=0, lcb_es=0, s2_det=set(), s2_misaligned_after_append=0,
                  max_ntrain=0, noise_flag=None)
+    site_obs = {}        # (caller, centre == incumbent, centre == last evaluated point, centre == own history row) -> count
     gsn_events = []      # Coq-ready inputs for a sample
     st = dict(in_gsn=False, dist=None, last_gsn=None, last_call=None, fl=None, tainted=set())
     rng = random.Random(cfg["seed"])
@@ -194,7 +195,12 @@ def run_one(cfg):
         r2 = float(np.asarray((opts["gp_radius"] * eff) ** 2).reshape(-1)[0])
         outU, outY = np.asarray(U).tolist(), np.asarray(Yo).reshape(-1).tolist()
         outS = None if S2 is None else np.asarray(S2).reshape(-1).tolist()
-        m = C.monitor_selection(X, Y, S, xmax, dist, r2, o, outU, outY, outS, int(optim_state["ntrain"]), nf)
+        m = None
+        if dm.shape[0] == xmax + 1 and not np.any(np.asarray(optim_state.get("periodic_vars", False))):
+            # "nearest ... in the GP's length-scaled metric": the distances used are those of the logged rows to the centre handed in
+            m = C.metric_check(X[:xmax + 1], u, gp.temporary_data["len_scale"], dm)
+            stats["metric_checked"] = stats.get("metric_checked", 0) + 1
+        m = m or C.monitor_selection(X, Y, S, xmax, dist, r2, o, outU, outY, outS, int(optim_state["ntrain"]), nf)
         if m:
             bad(m[0], m[1], f"selection {k} (func_count {function_logger.func_count})")
         nontrivial = len(outU) < xmax + 1
@@ -242,6 +248,21 @@ def run_one(cfg):
                 # updates stays conditioned on the neighbourhood of the incumbent when the candidate is rejected
                 bad("trial-fit-on-working-gp", f"the local fit at the search candidate {np.ravel(current_point).tolist()} was applied to the working surrogate itself "
                     f"(incumbent {np.ravel(bb.u).tolist()})", f"local_gp_fitting {stats['local_fit']}")
+        if bb is not None:
+            # observation for the validation of the translator's call-site census (props/C15.py, correspondence:gpset_sites): which of
+            # "the incumbent self.u", "the point last handed to the logger", "the history row of this very surrogate" the centre equals
+            cp_ = np.ravel(np.asarray(current_point, dtype=float))
+            le_ = st.get("last_eval_u")
+            hist_ = False
+            try:
+                gps_, uh_ = bb.iteration_history.get("gp"), bb.iteration_history.get("u")
+                for i_ in range(len(gps_)):
+                    if gps_[i_] is gp and np.array_equal(np.ravel(uh_[i_]), cp_):
+                        hist_ = True
+            except Exception:
+                pass
+            key_ = (caller, bool(np.array_equal(cp_, np.ravel(bb.u))), bool(le_ is not None and np.array_equal(cp_, le_)), hist_)
+            site_obs[key_] = site_obs.get(key_, 0) + 1
         st["last_gsn"] = None
         st["tainted"].discard(id(gp))
         res = o_lgf(gp, current_point, function_logger, *a, **k)
@@ -396,7 +417,8 @@ def run_one(cfg):
         gpyreg.GP.update = o_upd
     stats["s2_det"] = sorted(stats["s2_det"])
     stats["update_faults_injected"] = upd["faulted"]
-    return dict(cfg=cfg, stats=stats, violations=viol, exc=exc, result=res, gsn_events=gsn_events)
+    return dict(cfg=cfg, stats=stats, violations=viol, exc=exc, result=res, gsn_events=gsn_events,
+                site_obs=[list(k_) + [v_] for k_, v_ in sorted(site_obs.items())])
 
 
 def run_many(cfgs, procs=8):
